@@ -33,6 +33,19 @@ theorem encode_num_range (i : Int) (h : ¬ (MIN_SCRIPT_NUM ≤ i ∧ i ≤ MAX_S
     encodeNum i = .error .value := by
   simp [encodeNum, h]
 
+/-- btclib's minimality test `encode_num(decode_num(b)) == b` accepts exactly the encodings Core's
+    `CScriptNum` constructor calls minimal — on every byte string, negative zero of every length included. -/
+theorem minimal_encoding_is_Cores (b : Bytes) :
+    encodeNumRaw (decodeNum b) = b ↔ Core.isMinimallyEncoded b = true :=
+  encode_decode_iff_minimal b
+
+/-- `_to_num(element, flags, max_size)` is `CScriptNum(vch, fRequireMinimal, nMaxNumSize)`: it refuses exactly
+    the over-long and (under MINIMALDATA) the non-minimal operands, and reads the same value otherwise. -/
+theorem to_num_is_CScriptNum (b : Bytes) (minimal : Bool) (maxSize : Nat) :
+    (toNum b minimal maxSize).toOption = (Core.scriptNum b minimal maxSize).toOption :=
+  toNum_eq_scriptNum b minimal maxSize
+
+example : toNum [0x00, 0x80] true 4 = .error .value ∧ toNum [0xff, 0x80] true 4 = .ok (-255) := by decide
 example : encodeNum (-255) = .ok [0xff, 0x80] := by decide
 example : decodeNum [0xff, 0x80] = -255 := by decide
 example : toBool [0, 0, 0x80] = false ∧ toBool [0x80, 0] = true := by decide
